@@ -52,7 +52,11 @@ EMPTY_SARIF = lambda tool: json.dumps({"version": "2.1.0", "runs": [{"tool": {"d
 
 # run-time condition dimensions; value 0 is canonical
 DIRS = ["exists", "missing", "is-file"]
-RESULTS = ["none", "sonar-present", "sarif-present", "sonar-missing", "sarif-missing", "hotspots-missing", "defectdojo-missing", "sarif-same-tool-twice", "sarif-two-tools"]
+MULTI_SARIF = lambda *tools: json.dumps({"version": "2.1.0", "runs": [{"tool": {"driver": {"name": t, "rules": []}}, "results": []} for t in tools]}).encode()
+RESULTS = ["none", "sonar-present", "sarif-present", "sonar-missing", "sarif-missing", "hotspots-missing", "defectdojo-missing", "sarif-same-tool-twice", "sarif-two-tools",
+           # documents holding runs of several tools: one alone is fine; together with another input of a tool it contains,
+           # two inputs come from the same tool (whichever run of the merged document that tool is, whichever file comes first)
+           "sarif-merged-alone", "sarif-merged-then-second-tool", "sarif-second-tool-then-merged", "sarif-merged-then-first-tool", "sarif-two-merged"]
 # "both set" for the OpenAI clients is not enumerated: constructing the client fails in this sandbox with a
 # library-version TypeError (openai vs httpx 'proxies'), which is an artefact of the image, not of codemodder
 AI = ["unset", "azure-key-only", "azure-endpoint-only", "llama-key-only", "llama-endpoint-only", "llama-both",
@@ -125,6 +129,14 @@ def build(cfg):
         rtoks = ["--sarif", "{res:a.sarif},{res:b.sarif}"]
         results["a.sarif"] = EMPTY_SARIF("Semgrep OSS")
         results["b.sarif"] = EMPTY_SARIF("semgrep")
+    elif r.startswith("sarif-merged") or r in ("sarif-second-tool-then-merged", "sarif-two-merged"):
+        results["m.sarif"] = MULTI_SARIF("Semgrep OSS", "CodeQL")
+        results["c.sarif"] = EMPTY_SARIF("CodeQL")
+        results["a.sarif"] = EMPTY_SARIF("Semgrep OSS")
+        results["m2.sarif"] = MULTI_SARIF("CodeQL", "Semgrep OSS")
+        names = {"sarif-merged-alone": ["m"], "sarif-merged-then-second-tool": ["m", "c"], "sarif-second-tool-then-merged": ["c", "m"],
+                 "sarif-merged-then-first-tool": ["m", "a"], "sarif-two-merged": ["m", "m2"]}[r]
+        rtoks = ["--sarif", ",".join("{res:%s.sarif}" % n for n in names)]
     elif r == "sarif-two-tools":
         rtoks = ["--sarif", "{res:a.sarif},{res:c.sarif}"]
         results["a.sarif"] = EMPTY_SARIF("Semgrep OSS")
@@ -179,7 +191,8 @@ def ref_exit_status(cfg):
     applicable = set()
     if d == "missing":
         applicable.add(1)
-    if r in ("sonar-missing", "sarif-missing", "hotspots-missing", "defectdojo-missing", "sarif-same-tool-twice"):
+    if r in ("sonar-missing", "sarif-missing", "hotspots-missing", "defectdojo-missing", "sarif-same-tool-twice", "sarif-merged-then-second-tool",
+             "sarif-second-tool-then-merged", "sarif-merged-then-first-tool", "sarif-two-merged"):
         applicable.add(1)
     if a in ("azure-key-only", "azure-endpoint-only", "llama-key-only", "llama-endpoint-only", "azure-key-empty", "azure-endpoint-empty", "llama-key-empty", "llama-endpoint-empty"):
         applicable.add(3)
